@@ -15,11 +15,27 @@ fn domain(argty: &str, rng: &mut Rng, thorough: bool) -> Vec<i128> {
         "u16" => v.extend(0..=65535),
         _ => {
             // all constant values, their neighbours, and random values
+            let width: u32 = if argty == "i64" || argty == "u64" { 64 } else { 32 };
             for (_, c) in ABI_CONSTS {
                 v.push(*c);
                 v.push(*c + 1);
                 v.push(*c - 1);
+                // every value at Hamming distance one, and (for values in the argument's range) two, from a constant:
+                // a membership test written as a mask (`x & C == C`), a dropped or a stuck bit
+                if *c >= 0 && (*c as u128) < (1u128 << width) {
+                    for i in 0..width {
+                        let a = *c ^ (1i128 << i);
+                        v.push(a);
+                        if thorough || *c >= 65536 {
+                            for j in (i + 1)..width {
+                                v.push(a ^ (1i128 << j));
+                            }
+                        }
+                    }
+                }
             }
+            let lim: i128 = if argty == "i64" { i64::MAX as i128 } else { (1i128 << width) - 1 };
+            v.retain(|x| *x <= lim && (*x >= 0 || argty == "i64"));
             for _ in 0..(if thorough { 200000 } else { 20000 }) {
                 v.push(rng.interesting() as i128);
                 v.push((rng.next() as u32) as i128);
